@@ -238,6 +238,14 @@ func c08Pipeline(c *wk.Case, srcN int64, withError bool, expensive bool) (*ref.N
 	if r.IntN(10) == 0 {
 		k = int64(100 + r.IntN(800))
 	}
+	if r.IntN(8) == 0 {
+		// small sources of known size (a size-dependent shortcut must not make a stage eager)
+		srcN = int64(2 + r.IntN(20))
+		k = int64(r.IntN(int(srcN)))
+		if r.IntN(2) == 0 {
+			k = 0
+		}
+	}
 	if withError && expensive {
 		// a parallel stage reads ahead by its worker count; errors inside that window are unclaimed
 		expensive = false
@@ -304,7 +312,10 @@ func c08Stages(c *wk.Case, srcN int64, failAt int64, k int64, expensive bool) *r
 			}
 			return t
 		}
-		switch r.IntN(8) {
+		switch r.IntN(9) {
+		case 8:
+			// the pipeline so far as the second list of cross: the first pass over it is all a consumer behind needs
+			cur = ref.Method(ref.ListN(ref.Int(0), ref.Int(1)), "cross", cur, ref.Clo([]string{b, a}, ref.Bin("+", ref.Bin("*", id(b), ref.Int(1000000000)), id(a))))
 		case 6:
 			// concatenation with an operand that is already in memory (literal, evaluated list): the lazy side stays lazy
 			lit := []*ref.Node{ref.ListN(ref.Int(-1), ref.Int(-2)), ref.ListN(ref.Int(-7)), ref.Method(ref.ListN(ref.Int(-1), ref.Int(-2), ref.Int(-3)), "eval"), ref.ListN()}[r.IntN(4)]
